@@ -117,7 +117,8 @@ def run(ctx):
     if ctx.tier == "quick":
         run_model(ctx, "bs_n2", E4, 2, ALL_CLASSES, switch_in=True)
         run_model(ctx, "bs_edge", EDGE, 2, ALL_CLASSES, switch_in=False)
-        run_model(ctx, "bs_n3", E4, 3, ALL_CLASSES, switch_in=False, sample=60000)
+        run_model(ctx, "bs_n3", E4, 3, ["honest", "honest_switch", "conflict_last_flag", "beyond_last", "switch_twice",
+                                        "switch_to_self"], switch_in=False, vias=("direct",))
     else:
         run_model(ctx, "bs_n2", E4, 2, ALL_CLASSES, switch_in=True, witnesses=True)
         run_model(ctx, "bs_n3", E4, 3, ALL_CLASSES, switch_in=True)
